@@ -26,7 +26,10 @@ type AuditLogMiddleware struct {
 	mlDsaSigner signing.Signer
 	lastHash    []byte
 	hashBuffer  [][]byte
-	mu          sync.Mutex
+	// genesisPending is set while a new chain still lacks its GENESIS entry
+	// because the sink failed to write it.
+	genesisPending bool
+	mu             sync.Mutex
 }
 
 var _ storage.TransactionalStorage = (*AuditLogMiddleware)(nil)
@@ -75,21 +78,30 @@ func NewAuditLogMiddleware(next storage.Storage, sink sink.Sink, signer signing.
 	}
 
 	if isZero {
-		pithosHash := sha512.Sum512([]byte("pithos"))
-		genesis := &auditlog.Entry{
-			Version:      auditlog.CurrentVersion,
-			Timestamp:    time.Now().UTC(),
-			Type:         auditlog.EntryTypeGenesis,
-			Details:      &auditlog.GenesisDetails{},
-			PreviousHash: pithosHash[:],
-		}
-		_ = genesis.Sign(signer)
-		if err := sink.WriteEntry(genesis); err == nil {
-			m.lastHash = genesis.Hash
-		}
+		m.genesisPending = true
+		m.writeGenesis()
 	}
 
 	return m
+}
+
+// writeGenesis starts a new chain with its GENESIS entry. If the sink fails,
+// the entry stays pending and is retried before the next log entry, so that a
+// log never starts with anything but the GENESIS entry.
+func (m *AuditLogMiddleware) writeGenesis() {
+	pithosHash := sha512.Sum512([]byte("pithos"))
+	genesis := &auditlog.Entry{
+		Version:      auditlog.CurrentVersion,
+		Timestamp:    time.Now().UTC(),
+		Type:         auditlog.EntryTypeGenesis,
+		Details:      &auditlog.GenesisDetails{},
+		PreviousHash: pithosHash[:],
+	}
+	_ = genesis.Sign(m.signer)
+	if err := m.sink.WriteEntry(genesis); err == nil {
+		m.lastHash = genesis.Hash
+		m.genesisPending = false
+	}
 }
 
 func (m *AuditLogMiddleware) log(ctx context.Context, op auditlog.Operation, phase auditlog.Phase, resource auditResource, err error, statusCode int32, durationMs int64) {
@@ -176,6 +188,14 @@ func (m *AuditLogMiddleware) log(ctx context.Context, op auditlog.Operation, pha
 
 	m.mu.Lock()
 	defer m.mu.Unlock()
+
+	if m.genesisPending {
+		m.writeGenesis()
+		if m.genesisPending {
+			// Without a GENESIS entry nothing can be appended to the chain.
+			return
+		}
+	}
 
 	entry.PreviousHash = m.lastHash
 	_ = entry.Sign(m.signer)
